@@ -18,8 +18,9 @@ import (
 // The bookkeeping must not forget the redelivered message: max outstanding messages still holds.
 //
 // schedule (transaction boundaries of the stream's goroutines, driver-wrapper gates):
-//   reader:  BEGIN nack(m1) COMMIT | parked                          | pending := pending \ {m1}
-//   sender:                          fetch (budget 1) -> sends m1 again |                 fetch (budget ?) -> ...
+//
+//	reader:  BEGIN nack(m1) COMMIT | parked                          | pending := pending \ {m1}
+//	sender:                          fetch (budget 1) -> sends m1 again |                 fetch (budget ?) -> ...
 func c11NackRedeliveryRace(t *testing.T, seed int64, viaDelay bool) (what string) {
 	synctest.Test(t, func(t *testing.T) {
 		w := NewWorld(t, seed)
